@@ -430,6 +430,11 @@ func oracleGate(c *DriveCtx, res *Result) {
 		case "handler":
 			want := 200
 			d := res.Before[t.Srv]["https://"+t.Srv+t.Req.Path]
+			if supplied, _ := t.Result.(string); supplied != "" {
+				d = supplied // the value the database handed to this very request (a concurrent client Delete may have replaced it)
+			} else if _, nowThere := res.After[t.Srv]["https://"+t.Srv+t.Req.Path]; d == "" && nowThere {
+				continue // created by a concurrent request; whether this GET saw it is a matter of schedule
+			}
 			if d == "" {
 				if t.Err == nil {
 					s.violate("C10", "missing-value-served", site, fmt.Sprintf("GET of a missing value answered %d without error", st))
